@@ -785,4 +785,74 @@ theorem step_preserves {n n' : Node} {op : Op} {acc : Bool} (hI : Inv n) (hf : F
     cases hs
     exact restart_preserves hI0
 
+
+/-! ### request lists (used by Props/C06) -/
+
+/-- run a request list; `none` = the implementation panicked on the way -/
+def run : Node → List Op → Option Node
+  | n, [] => some n
+  | n, op :: ops => match n.step op with
+    | none => none
+    | some (n', _) => run n' ops
+
+/-- every *new* approval along the run happens while nothing is outgoing in flight for that hash -/
+def FreshRun : Node → List Op → Prop
+  | _, [] => True
+  | n, op :: ops => FreshApproval n op ∧ match n.step op with
+    | none => True
+    | some (n', _) => FreshRun n' ops
+
+/-- the conservation inequality, in msat, on the ghost ledger of the current commitments -/
+def Conserved (n : Node) : Prop :=
+  ∀ h inv, n.invoices h = some inv →
+    totalOut n h * 1000 ≤ totalIn n h * 1000 + inv.amount + n.pol.maxFee
+
+theorem inv_run (ops : List Op) : ∀ (n n' : Node), Inv n → FreshRun n ops → run n ops = some n' → Inv n' := by
+  induction ops with
+  | nil => intro n n' hI _ hr; simp only [run] at hr; cases hr; exact hI
+  | cons op ops ih =>
+    intro n n' hI hf hr
+    simp only [run] at hr
+    simp only [FreshRun] at hf
+    cases hs : n.step op with
+    | none => simp [hs] at hr
+    | some r =>
+      obtain ⟨n1, acc⟩ := r
+      simp only [hs] at hr hf
+      exact ih n1 n' (step_preserves hI hf.1 hs) hf.2 hr
+
+def overpaid (n : Node) (h : Hash) : Bool :=
+  match n.invoices h with
+  | some inv => decide (totalOut n h * 1000 > totalIn n h * 1000 + inv.amount + n.pol.maxFee)
+  | none => false
+
+theorem not_conserved_of_overpaid {n : Node} {h : Hash} (ho : overpaid n h = true) : ¬ Conserved n := by
+  intro hc
+  unfold overpaid at ho
+  cases hi : n.invoices h with
+  | none => simp [hi] at ho
+  | some inv =>
+    simp only [hi, decide_eq_true_eq] at ho
+    have := hc h inv hi
+    omega
+
+theorem validate_of_cpSign {n n' : Node} {c : Nat} {r : Bool} {info : Info}
+    (h : n.cpSign c r info = (n', .ok)) : validate n c (n.chans c).hcur info = .ok := by
+  unfold Node.cpSign at h
+  dsimp only at h
+  cases hv : validate n c (n.chans c).hcur info with
+  | ok => rfl
+  | err => exfalso; simp only [hv] at h; repeat (first | (split at h) | (simp at h))
+  | panic => exfalso; simp only [hv] at h; repeat (first | (split at h) | (simp at h))
+
+theorem validate_of_hValidate {n n' : Node} {c : Nat} {r : Bool} {info : Info}
+    (h : n.hValidate c r info = (n', .ok)) : validate n c info (n.chans c).ccur = .ok := by
+  unfold Node.hValidate at h
+  dsimp only at h
+  cases hv : validate n c info (n.chans c).ccur with
+  | ok => rfl
+  | err => exfalso; simp only [hv] at h; repeat (first | (split at h) | (simp at h))
+  | panic => exfalso; simp only [hv] at h; repeat (first | (split at h) | (simp at h))
+
+
 end VlsModel.Payments
